@@ -1035,11 +1035,87 @@ class Model:
         return [c for c in self.classes if cq in self.mro(c)]
 
     def lookup_method(self, cq, name):
-        for k in self.mro(cq):
+        """The repository method `name` an instance of cq effectively has, or
+        None -- also None when a class of the standard library that comes
+        *earlier* in the linearisation defines the attribute (a mixin listed
+        after the library base class does not override it)."""
+        for k in self.full_mro(cq):
             c = self.classes.get(k)
-            if c is not None and name in c.methods:
-                return c.methods[name]
+            if c is not None:
+                if name in c.methods:
+                    return c.methods[name]
+                continue
+            obj = self._stdlib_class(k)
+            if obj is not None and name in vars(obj):
+                return None
         return None
+
+    def _stdlib_class(self, dotted_name):
+        """The class object for a dotted name of the standard library (never
+        of the repository), or None."""
+        import importlib
+        import sys
+        cache = self.__dict__.setdefault("_stdlib_cache", {})
+        if dotted_name in cache:
+            return cache[dotted_name]
+        obj = None
+        parts = dotted_name.split(".")
+        if parts[0] in getattr(sys, "stdlib_module_names", ()) \
+                or parts[0] == "builtins":
+            for i in range(len(parts) - 1, 0, -1):
+                try:
+                    mod = importlib.import_module(".".join(parts[:i]))
+                except Exception:
+                    continue
+                o = mod
+                try:
+                    for a in parts[i:]:
+                        o = getattr(o, a)
+                except AttributeError:
+                    o = None
+                if isinstance(o, type):
+                    obj = o
+                break
+        cache[dotted_name] = obj
+        return obj
+
+    def full_mro(self, cq):
+        """C3 linearisation including classes of the standard library (with
+        their real MRO); other external bases stand for themselves."""
+        cache = self.__dict__.setdefault("_full_mro_cache", {})
+        if cq in cache:
+            return cache[cq]
+        c = self.classes.get(cq)
+        if c is None:
+            obj = self._stdlib_class(cq)
+            if obj is not None:
+                res = []
+                for k in obj.__mro__:
+                    nm = "%s.%s" % (k.__module__, k.__qualname__)
+                    res.append(cq if k is obj else nm)
+                cache[cq] = res
+                return res
+            cache[cq] = [cq]
+            return [cq]
+        bases = [b for b in c.bases if b and not b.startswith("?")]
+        seqs = [list(self.full_mro(b)) for b in bases] + [list(bases)]
+        res = [cq]
+        seqs = [s for s in seqs if s]
+        while seqs:
+            for s_ in seqs:
+                cand = s_[0]
+                if not any(cand in t[1:] for t in seqs):
+                    break
+            else:
+                # inconsistent with the library's own order: fall back to
+                # the repository-only linearisation
+                cache[cq] = self.mro(cq)
+                return cache[cq]
+            res.append(cand)
+            seqs = [[x for x in s_ if x != cand] for s_ in seqs]
+            seqs = [s_ for s_ in seqs if s_]
+        cache[cq] = res
+        return res
 
     def lookup_class_attr(self, cq, name):
         for k in self.mro(cq):
